@@ -76,6 +76,133 @@ def add_enumerators(rep, prefix):
         rep.add(f'{prefix}.enumerate_cause_items.post.nonO1_enumerates.path{i}', r.status, time=r.time, backend=r.backend, where='other strategies enumerate the whole pith (linear by design)')
     rep.functions += ['beartype/_check/cls/logic/logcls.py:HintLogicABC.enumerate_cause_items', 'logcls._get_cause_enumerator_item_sequence', 'logcls._get_cause_enumerator_item_reiterable', 'logcls._get_cause_enumerator_item_collection']
 
+def add_finders(rep, prefix):
+    """C10 on the explanation path: the cause finders touch a pith's contents only where the checker did - `len()` only on an established
+    Sized pith, iteration (the enumerator / items()) only on an established Collection / Mapping - so one-shot iterables next to the
+    culprit are neither sized nor consumed while a rejection is described.  Function mode on the real finders; the leading `assert`
+    statements (internal input validation; their message f-strings call repr()) and the assignment only they use are DROPPED."""
+    import ast
+    from pyvc import funcmode, model as M, symx, discharge
+    from pyvc.symx import Exec, St, VObj, VPy, VTup, VInt
+    import collections.abc as cabc
+    from beartype import BeartypeStrategy
+    uni = M.Universe()
+    for c in (cabc.Sized, cabc.Collection, cabc.Sequence, cabc.Iterable, cabc.Mapping, cabc.Iterator, tuple): uni.const(c)
+    CAUSE = z3.Const('cause', M.Obj)
+    def F(name): return z3.Const(f'H_{name}', z3.ArraySort(M.Obj, M.Obj))
+    PITH = z3.Select(F('pith'), CAUSE); CHILDS = z3.Select(F('hint_childs_sane'), CAUSE)
+    SHALLOW = z3.Const('cause_shallow', M.Obj); LOGIC = z3.Const('hint_logic', M.Obj); NONE = uni.const(None)
+    def run(path, qual, origin_cls, n_childs):
+        import importlib
+        mod = importlib.import_module(path[:-3].replace('/', '.'))
+        fobj, node, _ = funcmode.load(path, qual)
+        body = [st for st in node.body if not isinstance(st, ast.Assert) and not (isinstance(st, ast.Expr) and isinstance(st.value, ast.Constant))
+                and not (isinstance(st, ast.Assign) and isinstance(st.targets[0], ast.Name) and st.targets[0].id == 'hints_child_len_expected')]
+        name = qual
+        iterated = []
+        def need(ex_, s, what, cls):
+            ex_.obl(s, f'pre.{what}', M.inst(PITH, uni.const(cls)), f'{what}: the pith is iterated here; it must be an established {cls.__name__} (a one-shot iterable is never consumed)')
+        def m_shallow(ex_, s, f, a, kw, where): return [(s, VObj(SHALLOW))]
+        def m_logic_get(ex_, s, f, a, kw, where): return [(s, VObj(LOGIC))]
+        def m_enum(ex_, s, f, a, kw, where):
+            need(ex_, s, 'enumerate_cause_items', cabc.Collection)
+            return [(s.ev('iterates_pith'), VTup((VTup((VInt(z3.Int('enum_idx')), VObj(z3.Const('enum_item', M.Obj)))),)))]
+        def m_permute(ex_, s, f, a, kw, where): return [(s, VObj(M.fresh('cause_child')))]
+        def m_find(ex_, s, f, a, kw, where): return [(s, VObj(M.fresh('cause_deep')))]
+        def m_sanify(ex_, s, f, a, kw, where): return [(s, VObj(M.fresh('hint_sane')))]
+        cm = {mod.find_cause_type_instance_origin: m_shallow, '.enumerate_cause_items': m_enum, '.permute_cause': m_permute, '.find_cause': m_find, '.sanify_hint_child': m_sanify}
+        if hasattr(mod, 'HINT_SIGN_PEP484585_CONTAINER_TO_LOGIC_get'): cm[mod.HINT_SIGN_PEP484585_CONTAINER_TO_LOGIC_get] = m_logic_get
+        for nm in ('is_hint_pep484585646_tuple_empty',):
+            if hasattr(mod, nm): cm[getattr(mod, nm)] = (lambda ex_, s, f, a, kw, where: [(s, VObj(M.fresh('is_empty_tuple_hint')))])
+        ex = Exec(uni, dict(mod.__dict__), call_model=cm, name=name); ex.fields_mode = True
+        ex.method_names = {'enumerate_cause_items', 'permute_cause', 'find_cause', 'sanify_hint_child', 'items', 'values', 'keys'}
+        # callee contract of find_cause_type_instance_origin (ASSUMED): no shallow cause <=> the pith is an instance of the hint's origin class
+        pre = [z3.Implies(z3.Select(F('cause_str_or_none'), SHALLOW) == NONE, M.inst(PITH, uni.const(origin_cls))) if origin_cls is not None else z3.BoolVal(True),
+               M.inst(CHILDS, uni.const(tuple)), M.len_(CHILDS) >= n_childs, M.inst(z3.Select(F('conf'), CAUSE), uni.const(object))]
+        outs = ex.exec_block(body, St((('cause', VObj(CAUSE)),), tuple(pre)))
+        pr = discharge.Prover(uni.axioms())
+        n = 0
+        for ob in ex.obls:
+            r = pr.prove(list(ob.pc), ob.goal); n += 1
+            rep.add(f'{prefix}.{name}.{ob.kind}#{ob.name.rsplit(".", 1)[-1]}', r.status, time=r.time, backend=r.backend, where=ob.where, reason=r.reason)
+        # frame: effects on the pith itself are len / isinstance / the guarded iteration only
+        allowed = {'len', 'isinstance', 'view_items', 'iter', 'next', 'iterate_items', 'usercall', 'eq'}
+        paths = 0
+        for kind, s_, v_ in outs:
+            paths += 1
+            for op, tgt, det in s_.effects:
+                if tgt is not None and isinstance(tgt, z3.ExprRef) and tgt.eq(PITH) and op in ('iter', 'next', 'view_items', 'iterate_items', 'iterate_all', 'enumerate'):
+                    need_cls = cabc.Mapping if op in ('view_items', 'iterate_items') else cabc.Collection
+                    r = pr.prove(list(s_.pc), M.inst(PITH, uni.const(need_cls)))
+                    rep.add(f'{prefix}.{name}.effect.{op}.path{paths}', r.status, time=r.time, backend=r.backend, where=f'{op} on the pith only under an established {need_cls.__name__}')
+        rep.add(f'{prefix}.{name}.paths', 'proved' if paths and n else 'refuted', backend='structural', where=f'{paths} paths, {n} definedness / precondition obligations (zero would be vacuous)')
+        rep.functions.append(f'{path}:{qual} (leading asserts dropped)')
+    run('beartype/_check/error/_pep/pep484585/errpep484585container.py', 'find_cause_pep484585_container_args_1', None, 1)
+    run('beartype/_check/error/_pep/pep484585/errpep484585container.py', 'find_cause_pep484585_tuple_fixed', tuple, 0)
+    run('beartype/_check/error/_pep/pep484585/errpep484585mapping.py', 'find_cause_pep484585_mapping', cabc.Mapping, 2)
+    rep.assumptions += ['explanation path: callee contract of find_cause_type_instance_origin ASSUMED (no shallow cause => the pith is an instance of the hint\'s origin class: tuple / a Mapping class)',
+                        'explanation path: the leading assert statements of the finders are dropped (internal invariants: cause type, sign, number of child hints >= 1 / 2)',
+                        'explanation path: permute_cause / find_cause (the recursive descent into the item) are callee contracts: the item is described by the same finders']
+
+EXPLAIN_SCENARIOS = [
+    # (hint source, object source): a conforming-or-uninspectable sibling that must be left alone + a culprit that makes the check fail
+    ('tuple[Iterable[int], int]', "(SizedStream([1, 2, 3]), 'bad')"), ('tuple[Container[int], int]', "(SizedStream([1, 2, 3]), 'bad')"),
+    ('tuple[Reversible[int], int]', "(SizedStream([1, 2, 3]), 'bad')"), ('tuple[Iterable[int], int]', "(Stream([1, 2, 3]), 'bad')"),
+    ('tuple[Iterable[int], int]', "(OneShot([1, 2, 3]), 'bad')"), ('tuple[Iterable[int], int]', "(SizedOneShot([1, 2, 3]), 'bad')"),
+    ('tuple[Iterable[int], int]', "((i for i in [1, 2, 3]), 'bad')"), ('tuple[Iterator[int], int]', "(OneShot([1, 2, 3]), 'bad')"),
+    ('tuple[dict[str, list[int]], int]', "(defaultdict(list, {'a': [1]}), 'bad')"), ('tuple[Mapping[str, int], int]', "(defaultdict(int, {'a': 1}), 'bad')"),
+    ('dict[str, Iterable[int]]', "{'a': SizedStream([1, 'x'])}"), ('list[Iterable[int]]', "[SizedStream(['x'])] * 3"),
+    ('tuple[Collection[int], int]', "(SizedStream([1, 2, 3]), 'bad')"), ('Union[Iterable[int], str]', "5"),
+    ('tuple[Union[Iterable[int], str], int]', "(SizedStream([1, 2]), 'bad')"),
+]
+EXPLAIN_SRC = """
+from pyvc import replaylib, shapes
+from pyvc.replaylib import NS, snapshot
+import collections, sys
+NS.setdefault('defaultdict', collections.defaultdict)
+def one(hint_src, obj_src, entry, strategy):
+    from beartype import beartype, BeartypeConf, BeartypeStrategy
+    from beartype.door import die_if_unbearable
+    from beartype.roar import BeartypeDoorHintViolation, BeartypeCallHintViolation
+    hint = shapes.ev(hint_src); obj = eval(obj_src, NS); conf = BeartypeConf(strategy=getattr(BeartypeStrategy, strategy))
+    def snap(o):
+        parts = [snapshot(o)]
+        for it in (o if isinstance(o, (tuple, list)) else list(o.values()) if isinstance(o, dict) else ()): parts.append(snapshot(it))
+        return parts
+    before = snap(obj); replaylib.force_draw(1)
+    try:
+        if entry == 'door': die_if_unbearable(obj, hint, conf=conf)
+        else:
+            @beartype(conf=conf)
+            def f(a: hint): return None
+            f(obj)
+        out = 'accepted'
+    except (BeartypeDoorHintViolation, BeartypeCallHintViolation): out = 'violation'
+    except Exception as e: out = f'{type(e).__name__}: {e}'[:160]
+    after = snap(obj)
+    return out, before, after
+"""
+def add_explain_bounded(rep, prefix):
+    """bounded run-time contract (NOT counted as proved): describing a rejection leaves one-shot / auto-vivifying siblings of the culprit
+    exactly as they were, under the constant-time strategy, through the door API and a decorated parameter"""
+    import subprocess, sys, json
+    from pyvc import VERIF, REPO
+    head = f"import sys, os\nos.environ['VERIF_REPO'] = {REPO!r}\nsys.path.insert(0, {VERIF!r})\nimport pyvc; pyvc.use_repo()\n"
+    drv = head + EXPLAIN_SRC + f"\nimport json\nres = []\nfor h, o in {EXPLAIN_SCENARIOS!r}:\n    for entry in ('door', 'param'):\n        out, b, a = one(h, o, entry, 'O1')\n        res.append((h, o, entry, out, repr(b), repr(a)))\nprint('RESULT' + json.dumps(res))\n"
+    p = subprocess.run([sys.executable, '-c', drv], capture_output=True, text=True, timeout=300)
+    line = next((l for l in p.stdout.splitlines() if l.startswith('RESULT')), None)
+    if line is None: rep.error(f'{prefix}.explain_bounded: harness failed: ' + (p.stdout + p.stderr)[-600:]); return
+    res = json.loads(line[6:]); bad = 0
+    for h, o, entry, out, b, a in res:
+        ok = (b == a) and (out in ('violation', 'accepted'))
+        if ok: continue
+        bad += 1
+        script = ("os.environ['VERIF_REPO'] = %r\n" % REPO) + EXPLAIN_SRC + f"\nout, b, a = one({h!r}, {o!r}, {entry!r}, 'O1')\nprint(out); print('before', b); print('after ', a)\nsys.exit(1 if (b != a or out not in ('violation', 'accepted')) else 0)\n"
+        rep.add(f'{prefix}.explain_bounded[{h}|{o}|{entry}]', 'refuted', backend='runtime-contract', where=f'{out}; subject before {b} after {a}',
+                solver_output='bounded run-time contract on the real API (not a proof)', replay=dict(reproduced=True, detail=f'{entry} check of {o} against {h}: {out}; before {b} after {a}'[:400]), replay_script=script)
+    rep.bounded.append(dict(kind='explanation path leaves one-shot / auto-vivifying siblings untouched (bounded stand-in, NOT counted as proved)', scenarios=len(res), failing=bad,
+                            bound=f'{len(EXPLAIN_SCENARIOS)} hint/object scenarios x 2 entry points, constant-time strategy, forced draw 1'))
+
 def safe(fn, rep, *a):
     try: fn(rep, *a)
     except Exception: rep.error(f'{fn.__name__}: ' + traceback.format_exc()[-1800:])
